@@ -10,7 +10,7 @@ REQUIRED = ["iint", "Epoch.__init__", "Epoch.set", "Epoch._compute_jde", "Epoch.
             "Epoch.get_doy", "Epoch.doy", "Epoch.doy2date", "Epoch.year", "Epoch.leap", "Epoch.is_leap",
             "Epoch.mean_sidereal_time", "Epoch.apparent_sidereal_time", "Epoch.mjd", "Epoch.__call__"]
 THEOREMS = ["C16_epoch", "C16_dow", "C16_dow_within_day", "C16_dow_next", "C16_dow_gregorian", "C16_get_doy", "C16_doy_int_args", "C16_doy_dec31", "C16_doy2date", "C16_doy_refused", "C16_leap", "C16_methods", "C16_methods_month_ends", "C16_year_order", "C16_mjd", "C16_sidereal",
-            "C16_sidereal_ideal", "C16_sidereal_rate", "C16_apparent_ideal"]
+            "C16_sidereal_ideal", "C16_sidereal_rate", "C16_apparent_ideal", "C16_dow_b64"]
 PROOF_TIMEOUT = {"quick": 2400, "thorough": 3400}
 EXHAUSTIVE = True
 MANIFEST = {
@@ -41,7 +41,7 @@ EXPLANATION = ("The model regenerated from /repo is evaluated by the Coq kernel 
                "additionally compiles Epoch(y,m,d)/get_date and the within-day check on EVERY date and sidereal time on every 8th day.")
 CLAUSES = {
     "dow = floor(JDE+1.5) mod 7 = (jdn+1) mod 7, 0 = Sunday (every civil date -4712..6000, at 0h)": "proved [B64, kernel computation over the full domain]",
-    "dow constant over the civil day (noon, 0.999999 d, last binary64 instant)": "proved [B64] for every date of years = 2 mod 20 incl. 1582 (quick) / every date (thorough-only obligation T16_dow_within_day_all); all fractions only searched",
+    "dow constant over the civil day (noon, 0.999999 d, last binary64 instant)": "proved [B64, EVERY finite JDE in [0, 2^51): C16_dow_b64 - dow = floor(JDE + 1.5) mod 7 exactly (j - 0.5, + 2.0 and float % 7 are exact), hence constant over all binary64 instants of a civil day]; also kernel computation for every date of years = 2 mod 20 incl. 1582 (quick) / every date (thorough-only obligation T16_dow_within_day_all)",
     "dow advances by one each day incl. 4->15 Oct 1582": "proved [B64 full domain + spec lemmas jdn_next/weekday_next for all years]",
     "dow equals the proleptic Gregorian weekday after the reform": "proved [B64 + spec]",
     "day of year = jdn - jdn(1 Jan) + 1 in both calendars (get_doy)": "proved [B64, full domain]",
@@ -58,7 +58,7 @@ CLAUSES = {
 
 
 def proof_files(tier):
-    fs = ["C16_defs.v"] + ["C16_shard_%02d.v" % k for k in range(16)] + ["C16_main.v", "C16_tac.v", "C16_ideal.v"]
+    fs = ["C16_defs.v"] + ["C16_shard_%02d.v" % k for k in range(16)] + ["C16_main.v", "C16_tac.v", "C16_ideal.v", "C16_b64.v"]
     if tier == "thorough":
         # extra obligations (not in THEOREMS, which is the same in both tiers): within-day weekday on EVERY
         # civil date, sidereal time on every 8th day; a failure breaks stage P
